@@ -11,7 +11,7 @@ from common import (penman, layout, Graph, j_graph, j_tree, j_node, j_triple, py
 VARS = ['a', 'b', 'c', 'd', 'e', 'x1', 'x2', '_', '_2', 'a2']
 CONCEPTS = ['alpha', 'beta', 'Chase-01', '"str ing"', '"(x"', 'a', 'b', '7', 'have-mod-91', 'include-91',
             'own-01', 'have-03', 'ôter', '中', '_x', '"q~1"', '-', 'have-org-role-91', '٣', 'İ', '0', '1.5',
-            '²-norm', '½life', 'Ⅷ-century', '①a']
+            '²-norm', '½life', 'Ⅷ-century', '①a', 'ǅungla', 'ʰa', 'e\u0301cole', 'ẞig', 'ﬁn', '\u0301x', 'ª1', '٣x']
 ROLES_PLAIN = [':ARG0', ':ARG1', ':ARG2', ':op1', ':op2', ':op10', ':mod', ':domain', ':quant', ':polarity',
                ':consist-of', ':prep-on-behalf-of', ':superset', ':subset', ':poss', ':beneficiary', ':name',
                ':foo', ':R', ':', ':snt3', ':wiki', ':time', ':location', ':ARG10', ':role', ':employed-by', ':TOP',
